@@ -4,7 +4,8 @@ Part 1 (round trips): CCD/CMOS/MKID/APD detectors with random valid properties a
 of data containers initialised are written with the real Detector.save / to_asdf and read back
 with Detector.load / from_asdf; the harness's own field-by-field structural comparator (public
 API only, no library ``==``) compares the state extracted *before* saving with the state of the
-reloaded detector.  The library's ``==`` is evaluated as a secondary witness.  Processed-data trees hold groups
+reloaded detector.  The library's ``==`` is evaluated as a secondary witness.  Multi-wavelength photon cubes and
+scene sources carry their 'wavelength' labels in increasing, decreasing or no order.  Processed-data trees hold groups
 with variables, groups with only coordinates (shared with generated sub-groups or not) and/or only attributes
 (root included) and empty intermediate groups.
 
@@ -40,6 +41,9 @@ ASSUMPTIONS = [
     "detector.data[...] = DataArray / DataTree, node.coords[...] / node.attrs[...] of detector.data); NaN is not put into the 2-D buckets (the library == is a secondary witness)",
     "containers that travel as nested lists (3-D photon, scene, processed data) may come back in a wider dtype of "
     "the same kind with identical values: recorded as a normalisation, not alarmed; ndarray buckets must keep dtype",
+    "the 'wavelength' labels of a multi-wavelength photon cube and of a scene source are distinct numbers in any "
+    "order (increasing, decreasing, unordered; float or integer) -- the containers accept any labels; a cube may "
+    "label its y/x axes and carry attributes; labels, their order and the planes' order must come back unchanged",
     "processed data: groups with data variables, groups holding only coordinates (inherited by sub-groups or not) "
     "and/or only attributes (root included), empty intermediate groups; a coordinate held by a group that an "
     "ancestor defines identically is compared as inherited",
@@ -185,6 +189,7 @@ def rand_containers(rng, kind, chosen, has_pixel_size, force_image=False, no_clu
                 cs[name] = {"nd": 2, "dtype": rng.choice(FLOATS), "seed": seed}
             else:
                 cs[name] = {"nd": 3, "dtype": rng.choice(FLOATS), "nw": rng.randint(1, 4), "seed": seed}
+                cs[name]["layout"] = rand_axis_layout(seed, cube=True)
         elif name == "charge":
             if has_pixel_size and not no_clusters and rng.random() < 0.45:
                 cs[name] = {"mode": "clusters", "n": rng.randint(1, 6), "ptype": rng.choice(["e", "h"]),
@@ -201,6 +206,7 @@ def rand_containers(rng, kind, chosen, has_pixel_size, force_image=False, no_clu
             cs[name] = {"n": rng.choice([1, 1, 2]), "nref": rng.randint(1, 4), "nw": rng.randint(2, 5),
                         "dtype": rng.choice(["float64", "float64", "float32"]), "attrs": rng.random() < 0.6,
                         "seed": seed}
+            cs[name]["layout"] = rand_axis_layout(seed, cube=False)
         elif name == "data":
             paths = rng.sample(["/", "/statistics", "/statistics/pixel", "/mean_variance/image", "/snr",
                                 "/obs/partial/deep"], rng.randint(1, 3))
@@ -244,12 +250,55 @@ def rand_bare_groups(seed, var_paths):
     return out
 
 
+AXIS_ORDERS = ("increasing", "decreasing", "unordered")
+
+
+def rand_axis_layout(seed, cube):
+    """Layout of the labelled axes of a container that is a labelled array (multi-wavelength photon cube, scene
+    source): the containers accept ANY labels along 'wavelength', so the labels are not always an increasing
+    float axis (a cube ordered by wavenumber is decreasing, one assembled band by band has no order; labels may
+    be integers).  A cube may also label its 'y'/'x' axes and carry attributes.  Drawn from a generator of its
+    own (derived from the container seed) so that the other draws of a case do not depend on this class."""
+    import random
+    r = random.Random(int(seed) * 40503 % (2 ** 32) + 91)
+    lay = {"order": r.choice(AXIS_ORDERS), "int_axis": r.random() < 0.25}
+    if cube:
+        lay.update({"yx": r.choice(["none", "none", "both", "y", "x"]), "yx_order": r.choice(AXIS_ORDERS[:2]),
+                    "attrs": r.random() < 0.4, "axis_attrs": r.random() < 0.4})
+    return lay
+
+
+def order_axis(g, axis, lay):
+    """Increasing axis values -> the values in the order asked by the layout (*lay* may be None: unchanged)."""
+    axis = np.asarray(axis)
+    if lay and lay.get("int_axis"):
+        axis = np.cumsum(np.maximum(np.diff(np.floor(axis), prepend=0.0), 1.0)).astype("int64")   # still distinct
+    order = (lay or {}).get("order", "increasing")
+    if order == "decreasing":
+        return axis[::-1].copy()
+    if order == "unordered":
+        perm = g.permutation(len(axis))
+        if len(axis) >= 3 and (np.all(np.diff(perm) > 0) or np.all(np.diff(perm) < 0)):
+            perm[[0, 1]] = perm[[1, 0]]
+        return axis[perm]
+    return axis
+
+
+def axis_order_class(values):
+    v = np.asarray(values, dtype="float64")
+    if v.size < 2:
+        return "single"
+    dv = np.diff(v)
+    return "increasing" if np.all(dv > 0) else ("decreasing" if np.all(dv < 0) else "unordered")
+
+
 def variants_sig(cs):
     out = []
     for name, c in sorted(cs.items()):
         if c is None:
             continue
         out.append((name, c.get("nd"), c.get("mode"), c.get("dtype"), c.get("n"), c.get("zeros"),
+                    (c.get("layout") or {}).get("order"),
                     len(c.get("nodes", [])), sorted(g["what"] for g in c.get("groups", []))))
     return out
 
@@ -320,7 +369,7 @@ def make_source(g, c):
          "y": xr.DataArray((g.random(nref) * 400.0 - 200.0), dims="ref"),
          "weight": xr.DataArray(g.random(nref) * 20.0, dims="ref"),
          "flux": xr.DataArray((g.random((nref, nw)) * 2.0).astype(dt), dims=["ref", "wavelength"])},
-        coords={"ref": np.arange(nref), "wavelength": wl})
+        coords={"ref": np.arange(nref), "wavelength": order_axis(g, wl, c.get("layout"))})
     if c["attrs"]:
         ds.attrs.update({"right_ascension": float(g.random() * 360.0), "declination": float(g.random() * 90.0),
                          "fov_radius": float(g.random())})
@@ -344,8 +393,17 @@ def apply_containers(det, cs):
             else:
                 g = _gen(seed, 2)
                 wl = 300.0 + np.cumsum(g.random(c["nw"]) * 80.0 + 1.0)
-                det.photon.array_3d = xr.DataArray(float_array(g, (c["nw"], rows, cols), c["dtype"]),
-                                                   dims=["wavelength", "y", "x"], coords={"wavelength": wl})
+                values = float_array(g, (c["nw"], rows, cols), c["dtype"])
+                lay = c.get("layout") or {}
+                ga = _gen(seed, 20)
+                coords = {"wavelength": xr.Variable(("wavelength",), order_axis(ga, wl, lay),
+                                                    attrs={"units": "nm"} if lay.get("axis_attrs") else {})}
+                for dim, size in (("y", rows), ("x", cols)):
+                    if lay.get("yx") in ("both", dim):
+                        ticks = np.arange(size) + int(ga.integers(0, 100))
+                        coords[dim] = ticks[::-1].copy() if lay.get("yx_order") == "decreasing" else ticks
+                det.photon.array_3d = xr.DataArray(values, dims=["wavelength", "y", "x"], coords=coords,
+                                                   attrs={"units": "ph/nm", "scale": 0.5} if lay.get("attrs") else {})
         elif name == "charge":
             g = _gen(seed, 3)
             if c["mode"] == "array":
@@ -932,6 +990,7 @@ def roundtrip_case(rec, ctx, i, spec):
         if c is not None:
             variant = c.get("mode") or (f"{c['nd']}d" if "nd" in c else c.get("dtype", ""))
             rec.observe("initialised", f"{kind}:{name}:{variant}")
+    observe_axis_orders(rec, before["containers"], "axis_orders")
     for grp in (cs.get("data") or {}).get("groups", []):
         role = "root" if grp["path"] == "/" else ("shared-by-subgroups" if grp.get("children") else "plain")
         for what in grp["what"].split("+"):
@@ -942,6 +1001,23 @@ def roundtrip_case(rec, ctx, i, spec):
     if setters:
         rec.count("roundtrips_with_setters")
     rec.case(sig, nontrivial, sample=case)
+
+
+def observe_axis_orders(rec, state, setname):
+    """Which orders of the 'wavelength' labels (and which cube layouts) the saved containers really had."""
+    if state["photon"]["state"] == "3d":
+        cube = state["photon"]["array"]
+        wl = cube["coords"]["wavelength"]["values"]
+        rec.observe(setname, f"photon3d:{axis_order_class(wl)}")
+        rec.observe(setname, f"photon3d:labels:{wl.dtype.kind}")
+        for dim in ("y", "x"):
+            if dim in cube["coords"]:
+                rec.observe(setname, f"photon3d:{dim}-labelled")
+        if cube["attrs"]:
+            rec.observe(setname, "photon3d:attrs")
+    for path, node in state["scene"].items():
+        if "wavelength" in node["coords"]:
+            rec.observe(setname, f"scene:{axis_order_class(node['coords']['wavelength']['values'])}")
 
 
 # ---------------------------------------------------------------------- pipelines with the load model
@@ -1195,6 +1271,7 @@ def pipeline_case(rec, ctx, i, spec):
     nontrivial = any(states_differ(e["state"], file_state) for e in pre)
     check_after_load(rec, ctx, tree, detector, n_steps, expect_post, expect_final, ["post_full"], final_names,
                      mech, case, i)
+    observe_axis_orders(rec, file_state, "axis_orders_loaded_in_pipeline")
     rec.observe("load_groups", build.GROUPS[g_load])
     rec.observe("load_positions", position)
     rec.observe("pipeline_steps", n_steps)
@@ -1355,6 +1432,10 @@ def finalize(counters, sets, tier):
     variants = {f"{k}:{v}" for k in KINDS for v in ("photon:2d", "photon:3d", "charge:array", "charge:clusters")}
     if variants - set(sets.get("initialised", [])):
         out.append(f"container variants never round-tripped: {sorted(variants - set(sets.get('initialised', [])))}")
+    orders = set(sets.get("axis_orders", []))
+    need_orders = {f"{c}:{o}" for c in ("photon3d", "scene") for o in AXIS_ORDERS}
+    if need_orders - orders:
+        out.append(f"orders of the 'wavelength' labels never round-tripped: {sorted(need_orders - orders)}")
     return out
 
 
@@ -1364,7 +1445,8 @@ def coverage_extra(counters, sets, tier):
             "exhaustive": all(a == b for a, b in cov.values()),
             "exhaustive_over": "subsets of initialised containers per detector type (contents are sampled)",
             "skipped": sorted(sets.get("skipped", [])),
-            "load_groups_covered": len(sets.get("load_groups", []))}
+            "load_groups_covered": len(sets.get("load_groups", [])),
+            "wavelength_label_orders_round_tripped": sorted(sets.get("axis_orders", []))}
 
 
 REGISTER = True
